@@ -286,7 +286,31 @@ class Ctx:
             else:
                 self.trusted.append('Print Assumptions: all property theorems closed under the global context')
             self.coverage['theorems'] = [f'{m}.{n}' for m, n in thms]
+        if self.tier == 'thorough' and mods and os.environ.get('VERIF_NO_COQCHK') != '1':
+            self.run_coqchk(mods)
         return not problems
+
+    def run_coqchk(self, mods):
+        """Independent re-check of the compiled property files (and everything they depend on)."""
+        rc, out = sh(['coqchk', '-o', '-silent', '-Q', str(THEORIES), 'PV'] + list(mods), timeout=2400, cwd=COQ)
+        (self.rundir / 'coqchk.log').write_text(out)
+        summary = out[out.find('CONTEXT SUMMARY'):] if 'CONTEXT SUMMARY' in out else out[-800:]
+        m = re.search(r'\* Axioms:(.*?)\n\s*\n\* Constants/Inductives relying on type-in-type:(.*?)\n\s*\n'
+                      r'\* Constants/Inductives relying on unsafe \(co\)fixpoints:(.*?)\n\s*\n'
+                      r'\* Inductives whose positivity is assumed:(.*?)\n', summary + '\n', flags=re.S)
+        info = {'rc': rc}
+        if m:
+            axioms = [a.strip() for a in m.group(1).strip().split('\n') if a.strip() and a.strip() != '<none>']
+            info.update({'axioms': axioms, 'type_in_type': m.group(2).strip(), 'unsafe_fix': m.group(3).strip(),
+                         'assumed_positivity': m.group(4).strip()})
+            bad = [a for a in axioms if a not in ALLOWED_AXIOMS and a.split('.')[-1] not in ALLOWED_AXIOMS]
+            if rc != 0 or bad or any(info[k] != '<none>' for k in ('type_in_type', 'unsafe_fix', 'assumed_positivity')):
+                self.broken.append(f'coqchk: rc={rc} non-allowed axioms {bad} / unsafe flags {info}')
+            self.trusted.append('coqchk -o (independent checker) on the Properties/Refuted/Examples modules: axioms '
+                                + (', '.join(axioms) if axioms else '<none>'))
+        else:
+            self.broken.append('coqchk: could not parse summary: ' + summary[-300:])
+        self.coverage['coqchk'] = info
 
     # ---- running case files
     def run_cases(self, name, imports, case_type, cases, verdict, shard=250, timeout=900, prelude=''):
